@@ -1,13 +1,1223 @@
-//! C20 — not yet implemented
-use crate::core::{Ctx, Outcome};
-use serde_json::Value;
+//! C20 — Backtests consume their whole dataset in order and do not affect one another.
+//!
+//! Engine: **E-ENV at whole-system level**. Every execution is the REAL `barter::backtest::backtest` /
+//! `run_backtests` (execution builder, mock exchange with latency tasks, execution manager, system
+//! builder, forwarders, `async_run`, `shutdown_after_backtest`, summary generator) driven to completion on
+//! a fresh current-thread tokio runtime with a *paused* clock. All timing of the environment is owned by
+//! the harness and enumerated exhaustively:
+//!
+//! * the market data source is a harness `BacktestMarketData` that sleeps a virtual delay `w_i` before
+//!   yielding event `i` and a tail delay `w_{n+1}` before ending the stream (pacing vector, every
+//!   combination of the menu), or the real `MarketDataInMemory` (no pacing at all);
+//! * the mock exchange answers after the configured virtual latency `L`;
+//! * so each pacing fixes one relative order of "next market event" vs "execution response /
+//!   notification" entering the engine's single FIFO feed — the only scheduling freedom that can change
+//!   what an engine computes on a current-thread runtime. The menu avoids coinciding deadlines
+//!   (no run of consecutive delays sums to L; asserted at start), so there are no uncontrolled ties.
+//! * an auxiliary, non-exhaustive smoke run on a real-time 4-worker runtime repeats the timing-independent
+//!   rules (R1, R3) and is reported under its own evidence key / signature prefix `C20/mt-smoke/`.
+//!
+//! Observation without hooks: a recording `GlobalData` (a plain `Vec` inside the engine state, hence
+//! cloned per backtest with the rest of the shared initial state) logs every market event and fill the
+//! engine processes; the per-backtest `AlgoStrategy` (consulted by the engine after every processed
+//! event, never after `Shutdown`) copies that log plus positions / balances / realised PnL into an
+//! `Arc<Mutex<Record>>` private to that backtest. The last copy is the engine's final state.
+//!
+//! Alphabet: datasets of n trade events over 2 instruments (every instrument pattern, distinct ids,
+//! colliding prices, strictly increasing timestamps one hour apart), strategies "buy 1 on market event b,
+//! sell 1 on market event s" for all b < s <= n+1 (s = n+1: never sold, position stays open) plus an idle
+//! strategy — decisions depend on the market-event count only, never on the arrival of responses (the class
+//! the statement quantifies over); N in {1,2,3} concurrent members with every ordered assignment of
+//! strategies (repetitions included: identical cids in different members collide on purpose). The space is
+//! a plain product (no data-dependent choice points), so it is enumerated with nested loops + rayon rather
+//! than with the `choice` explorer. Bounds per tier are in `run` and in the evidence (`bounds`).
+//!
+//! Because the sweep itself runs many backtests on 16 OS threads of one process, a defect that couples
+//! backtests through process-global state also shows up as interference BETWEEN sweep workers. Violations
+//! are therefore first collected as candidates; after the sweep every signature is confirmed by a serial
+//! re-run (candidate cases, then a serial search of the small cases). Only if no case shows the signature on
+//! its own is the artefact marked `needs_parallel_context`, and `replay` then re-runs it under concurrent
+//! load (noisy-neighbour threads).
+//!
+//! Oracles (each from one sentence of the statement):
+//!  R1 completeness/order  "feeds every event of its market dataset to its engine exactly once and in
+//!     dataset order before shutting the engine down … nothing is skipped": the engine-local market log
+//!     equals the dataset, for every pacing, every member, alone and in a batch; the backtest succeeds.
+//!  R2 isolation (differential, no hand-written expectation) "running many backtests concurrently over
+//!     the same shared data and configuration gives each one the same fills, final positions, balances
+//!     and realised PnL that it produces when run alone": member i of a batch == the same strategy run
+//!     alone (direct `backtest()` on its own runtime) under the same dataset and pacing. Timestamps are
+//!     excluded (`HistoricalClock` adds wall-clock deltas). Running the same backtest alone twice must
+//!     give the same outcome too (otherwise "what it produces when run alone" is not even defined —
+//!     sequential backtests affecting one another through process-global state).
+//!  R3 own summary "the summary it returns is computed from that engine alone": the summary's id /
+//!     risk-free return are those of its own dynamic arguments, its per-instrument PnL and per-asset end
+//!     balances equal the values exported by the SAME backtest's engine, and the summary (time-free
+//!     fields) equals the summary of the alone run.
 
-pub fn run(_ctx: &Ctx) -> Outcome {
-    eprintln!("MACHINERY: C20 not implemented");
-    std::process::exit(2)
+use crate::core::{Ctx, Distinct, Outcome, Samples, hash_of};
+use crate::explore::env::paused_rt;
+use barter::{
+    backtest::{
+        BacktestArgsConstant, BacktestArgsDynamic, backtest,
+        market_data::{BacktestMarketData, MarketDataInMemory},
+        run_backtests,
+        summary::BacktestSummary,
+    },
+    engine::{
+        Engine, Processor,
+        state::{
+            EngineState,
+            instrument::{data::DefaultInstrumentMarketData, filter::InstrumentFilter},
+            trading::TradingState,
+        },
+    },
+    error::BarterError,
+    risk::DefaultRiskManager,
+    statistic::time::Daily,
+    strategy::{
+        algo::AlgoStrategy, close_positions::ClosePositionsStrategy,
+        on_disconnect::OnDisconnectStrategy, on_trading_disabled::OnTradingDisabled,
+    },
+    system::config::ExecutionConfig,
+};
+use barter_data::{
+    event::{DataKind, MarketEvent},
+    streams::consumer::MarketStreamEvent,
+    subscription::trade::PublicTrade,
+};
+use barter_execution::{
+    AccountEvent, AccountEventKind, InstrumentAccountSnapshot, UnindexedAccountSnapshot,
+    balance::{AssetBalance, Balance},
+    client::mock::MockExecutionConfig,
+    order::{
+        OrderKey, OrderKind, TimeInForce,
+        id::{ClientOrderId, StrategyId},
+        request::{OrderRequestCancel, OrderRequestOpen, RequestOpen},
+    },
+};
+use barter_instrument::{
+    Side, Underlying,
+    asset::{AssetIndex, name::AssetNameExchange},
+    exchange::{ExchangeId, ExchangeIndex},
+    index::IndexedInstruments,
+    instrument::{Instrument, InstrumentIndex, name::InstrumentNameExchange},
+};
+use chrono::{DateTime, TimeDelta, Utc};
+use futures::{Stream, StreamExt, stream::BoxStream};
+use rayon::prelude::*;
+use rust_decimal::Decimal;
+use rust_decimal_macros::dec;
+use serde::{Deserialize, Serialize};
+use serde_json::{Value, json};
+use smol_str::SmolStr;
+use std::{
+    collections::{BTreeMap, HashSet},
+    sync::{
+        Arc, Mutex,
+        atomic::{AtomicU64, Ordering},
+    },
+};
+
+// ------------------------------------------------------------------------------------------------
+// Fixed configuration
+// ------------------------------------------------------------------------------------------------
+
+/// Mock exchange latency (virtual ms). Response and notifications land `L` after the request.
+const LATENCY_MS: u64 = 100;
+/// Pacing menu (virtual ms). No sum of <= 5 menu values equals LATENCY_MS, so a market event and an
+/// execution response never share a deadline. `0` = event yielded without any suspension (burst).
+const MENU_QUICK: [u64; 3] = [1, 30, 250];
+const MENU_THOROUGH: [u64; 4] = [0, 1, 30, 250];
+const EXCHANGE: ExchangeId = ExchangeId::BinanceSpot;
+const INSTRUMENTS: [(&str, &str, &str); 2] = [("btc_usdt", "BTCUSDT", "btc"), ("eth_usdt", "ETHUSDT", "eth")];
+/// Prices by event position; positions 1 and 3 collide on purpose.
+const PRICES: [f64; 4] = [100.0, 110.0, 90.0, 110.0];
+
+fn t_event(i: usize) -> DateTime<Utc> {
+    // Dataset timestamps one hour apart, strictly increasing: the wall-clock deltas that
+    // `HistoricalClock` adds (micro- to milliseconds) can then never reorder two exchange timestamps.
+    DateTime::<Utc>::from_timestamp(1_700_000_000, 0).unwrap() + TimeDelta::hours(i as i64)
 }
 
-pub fn replay(_ctx: &Ctx, _case: &Value) {
-    eprintln!("MACHINERY: C20 not implemented");
-    std::process::exit(2)
+// ------------------------------------------------------------------------------------------------
+// Case description (replayable)
+// ------------------------------------------------------------------------------------------------
+
+#[derive(Debug, Clone, Copy, PartialEq, Eq, Hash, PartialOrd, Ord, Serialize, Deserialize)]
+pub enum Strat {
+    /// never sends an order
+    Idle,
+    /// buy 1 unit of the instrument of market event `buy` when the engine has seen `buy` market events,
+    /// sell 1 unit of it when it has seen `sell` market events (`sell` = n+1: never)
+    Trade { buy: usize, sell: usize },
+}
+
+#[derive(Debug, Clone, PartialEq, Eq, Hash, Serialize, Deserialize)]
+pub enum Source {
+    /// harness paced source: delays[i] before event i (i < n), delays[n] before end-of-stream
+    Paced(Vec<u64>),
+    /// the real `MarketDataInMemory`
+    InMemory,
+}
+
+#[derive(Debug, Clone, Serialize, Deserialize)]
+pub struct Case {
+    /// instrument (0/1) of each dataset event; length n
+    pub instr: Vec<usize>,
+    pub source: Source,
+    /// strategies of the concurrent members (batch through `run_backtests`)
+    pub members: Vec<Strat>,
+    /// 0 = paused current-thread runtime (the deciding exploration); k > 0 = auxiliary smoke run on a
+    /// real-time multi-thread runtime with k workers (only the timing-independent rules R1/R3 apply)
+    #[serde(default)]
+    pub mt_workers: usize,
+    /// set when the violation was observed during the (multi-threaded) sweep but a serial re-run of the case
+    /// alone in the process does not show it: the interference came from backtests running on OTHER threads
+    /// (process-global state). Replay then re-runs the case under concurrent load.
+    #[serde(default)]
+    pub needs_parallel_context: bool,
+}
+
+// ------------------------------------------------------------------------------------------------
+// Recording seams
+// ------------------------------------------------------------------------------------------------
+
+#[derive(Debug, Clone, PartialEq, Eq, Hash, Serialize)]
+pub struct MEv {
+    id: String,
+    instrument: usize,
+    price: String,
+}
+
+#[derive(Debug, Clone, PartialEq, Eq, Hash, Serialize)]
+pub struct Fill {
+    trade_id: String,
+    order_id: String,
+    instrument: usize,
+    side: String,
+    price: String,
+    quantity: String,
+    fee: String,
+}
+
+/// `GlobalData` of the engine state: engine-local log of what the engine processed.
+#[derive(Debug, Clone, Default)]
+pub struct RecGlobal {
+    market: Vec<MEv>,
+    fills: Vec<Fill>,
+    account_events: u64,
+}
+
+impl<'a> Processor<&'a MarketEvent<InstrumentIndex, DataKind>> for RecGlobal {
+    type Audit = ();
+    fn process(&mut self, event: &'a MarketEvent<InstrumentIndex, DataKind>) -> Self::Audit {
+        let (id, price) = match &event.kind {
+            DataKind::Trade(t) => (t.id.clone(), format!("{}", t.price)),
+            other => ("?".to_string(), format!("{other:?}")),
+        };
+        self.market.push(MEv { id, instrument: event.instrument.index(), price });
+    }
+}
+
+impl<'a> Processor<&'a AccountEvent> for RecGlobal {
+    type Audit = ();
+    fn process(&mut self, event: &'a AccountEvent) -> Self::Audit {
+        self.account_events += 1;
+        if let AccountEventKind::Trade(t) = &event.kind {
+            self.fills.push(Fill {
+                trade_id: t.id.0.to_string(),
+                order_id: t.order_id.0.to_string(),
+                instrument: t.instrument.index(),
+                side: format!("{:?}", t.side),
+                price: t.price.normalize().to_string(),
+                quantity: t.quantity.normalize().to_string(),
+                fee: t.fees.fees.normalize().to_string(),
+            });
+        }
+    }
+}
+
+type St = EngineState<RecGlobal, DefaultInstrumentMarketData>;
+
+/// What the strategy exports on every consultation (time-free view of its own engine's state).
+#[derive(Debug, Clone, Default, PartialEq, Eq, Hash, Serialize)]
+pub struct Record {
+    calls: u64,
+    market: Vec<MEv>,
+    fills: Vec<Fill>,
+    account_events: u64,
+    /// per instrument: open position (side, quantity, entry price, realised pnl of the open position)
+    positions: Vec<Option<(String, String, String, String)>>,
+    /// per asset: (name, total, free)
+    balances: Vec<(String, Option<(String, String)>)>,
+    /// per instrument: realised PnL of exited positions (engine's own tear-sheet accumulator)
+    pnl_realised: Vec<String>,
+    orders_sent: Vec<String>,
+    bought: Option<usize>,
+}
+
+#[derive(Debug, Clone)]
+pub struct RecStrategy {
+    plan: Strat,
+    id: StrategyId,
+    out: Arc<Mutex<Record>>,
+}
+
+fn d(x: Decimal) -> String {
+    x.normalize().to_string()
+}
+
+impl AlgoStrategy for RecStrategy {
+    type State = St;
+    fn generate_algo_orders(
+        &self,
+        state: &Self::State,
+    ) -> (
+        impl IntoIterator<Item = OrderRequestCancel<ExchangeIndex, InstrumentIndex>>,
+        impl IntoIterator<Item = OrderRequestOpen<ExchangeIndex, InstrumentIndex>>,
+    ) {
+        let mut out = self.out.lock().unwrap();
+        // export the engine-local record
+        out.calls += 1;
+        out.market = state.global.market.clone();
+        out.fills = state.global.fills.clone();
+        out.account_events = state.global.account_events;
+        out.positions = state
+            .instruments
+            .0
+            .values()
+            .map(|s| {
+                s.position.current.as_ref().map(|p| {
+                    (format!("{:?}", p.side), d(p.quantity_abs), d(p.price_entry_average), d(p.pnl_realised))
+                })
+            })
+            .collect();
+        out.balances = state
+            .assets
+            .0
+            .iter()
+            .map(|(k, s)| {
+                (
+                    format!("{}", k.asset.as_ref()),
+                    s.balance.as_ref().map(|b| (d(b.value.total), d(b.value.free))),
+                )
+            })
+            .collect();
+        out.pnl_realised = state.instruments.0.values().map(|s| d(s.tear_sheet.pnl_returns.pnl_raw)).collect();
+
+        // decide (function of the number of market events seen only)
+        let seen = state.global.market.len();
+        let mut opens = Vec::new();
+        if let Strat::Trade { buy, sell } = self.plan {
+            let mk = |instrument: usize, side: Side, cid: String, price: Decimal| OrderRequestOpen {
+                key: OrderKey {
+                    exchange: ExchangeIndex(0),
+                    instrument: InstrumentIndex(instrument),
+                    strategy: self.id.clone(),
+                    cid: ClientOrderId::new(cid),
+                },
+                state: RequestOpen {
+                    side,
+                    price,
+                    quantity: Decimal::ONE,
+                    kind: OrderKind::Market,
+                    time_in_force: TimeInForce::ImmediateOrCancel,
+                },
+            };
+            let price_of = |instrument: usize| {
+                use barter::engine::state::instrument::data::InstrumentDataState;
+                state.instruments.instrument_index(&InstrumentIndex(instrument)).data.price()
+            };
+            if seen == buy && out.bought.is_none() {
+                let instrument = state.global.market[seen - 1].instrument;
+                if let Some(price) = price_of(instrument) {
+                    out.bought = Some(instrument);
+                    out.orders_sent.push(format!("buy@{seen}"));
+                    opens.push(mk(instrument, Side::Buy, format!("b{buy}"), price));
+                }
+            }
+            if seen == sell && !out.orders_sent.iter().any(|o| o.starts_with("sell")) {
+                if let Some(instrument) = out.bought {
+                    if let Some(price) = price_of(instrument) {
+                        out.orders_sent.push(format!("sell@{seen}"));
+                        opens.push(mk(instrument, Side::Sell, format!("s{sell}"), price));
+                    }
+                }
+            }
+        }
+        (Vec::<OrderRequestCancel<ExchangeIndex, InstrumentIndex>>::new(), opens)
+    }
+}
+
+impl ClosePositionsStrategy for RecStrategy {
+    type State = St;
+    fn close_positions_requests<'a>(
+        &'a self,
+        _: &'a Self::State,
+        _: &'a InstrumentFilter<ExchangeIndex, AssetIndex, InstrumentIndex>,
+    ) -> (
+        impl IntoIterator<Item = OrderRequestCancel<ExchangeIndex, InstrumentIndex>> + 'a,
+        impl IntoIterator<Item = OrderRequestOpen<ExchangeIndex, InstrumentIndex>> + 'a,
+    )
+    where
+        ExchangeIndex: 'a,
+        AssetIndex: 'a,
+        InstrumentIndex: 'a,
+    {
+        (std::iter::empty(), std::iter::empty())
+    }
+}
+
+impl<C, S, T, R> OnDisconnectStrategy<C, S, T, R> for RecStrategy {
+    type OnDisconnect = ();
+    fn on_disconnect(_: &mut Engine<C, S, T, Self, R>, _: ExchangeId) -> Self::OnDisconnect {}
+}
+
+impl<C, S, T, R> OnTradingDisabled<C, S, T, R> for RecStrategy {
+    type OnTradingDisabled = ();
+    fn on_trading_disabled(_: &mut Engine<C, S, T, Self, R>) -> Self::OnTradingDisabled {}
+}
+
+// ------------------------------------------------------------------------------------------------
+// Market data sources
+// ------------------------------------------------------------------------------------------------
+
+type MEvent = MarketStreamEvent<InstrumentIndex, DataKind>;
+
+#[derive(Debug, Clone)]
+pub enum Data {
+    Paced { events: Arc<Vec<MEvent>>, delays: Arc<Vec<u64>> },
+    InMemory(MarketDataInMemory<DataKind>),
+}
+
+impl BacktestMarketData for Data {
+    type Kind = DataKind;
+
+    async fn time_first_event(&self) -> Result<DateTime<Utc>, BarterError> {
+        match self {
+            Data::Paced { .. } => Ok(t_event(0)),
+            Data::InMemory(m) => m.time_first_event().await,
+        }
+    }
+
+    async fn stream(&self) -> Result<impl Stream<Item = MEvent> + Send + 'static, BarterError> {
+        let s: BoxStream<'static, MEvent> = match self {
+            Data::Paced { events, delays } => {
+                let events = Arc::clone(events);
+                let delays = Arc::clone(delays);
+                futures::stream::unfold(0usize, move |i| {
+                    let events = Arc::clone(&events);
+                    let delays = Arc::clone(&delays);
+                    async move {
+                        let w = delays[i];
+                        if w > 0 {
+                            tokio::time::sleep(std::time::Duration::from_millis(w)).await;
+                        }
+                        if i < events.len() { Some((events[i].clone(), i + 1)) } else { None }
+                    }
+                })
+                .boxed()
+            }
+            Data::InMemory(m) => m.stream().await?.boxed(),
+        };
+        Ok(s)
+    }
+}
+
+fn dataset(instr: &[usize]) -> Vec<MEvent> {
+    instr
+        .iter()
+        .enumerate()
+        .map(|(i, inst)| {
+            MarketStreamEvent::Item(MarketEvent {
+                time_exchange: t_event(i),
+                time_received: t_event(i),
+                exchange: EXCHANGE,
+                instrument: InstrumentIndex(*inst),
+                kind: DataKind::Trade(PublicTrade {
+                    id: format!("e{}", i + 1),
+                    price: PRICES[i],
+                    amount: 1.0,
+                    side: if i % 2 == 0 { Side::Buy } else { Side::Sell },
+                }),
+            })
+        })
+        .collect()
+}
+
+fn expected_log(instr: &[usize]) -> Vec<MEv> {
+    instr
+        .iter()
+        .enumerate()
+        .map(|(i, inst)| MEv { id: format!("e{}", i + 1), instrument: *inst, price: format!("{}", PRICES[i]) })
+        .collect()
+}
+
+// ------------------------------------------------------------------------------------------------
+// Running the real backtests
+// ------------------------------------------------------------------------------------------------
+
+/// Time-free view of a returned `BacktestSummary`.
+#[derive(Debug, Clone, PartialEq, Eq, Hash, Serialize)]
+pub struct SummaryView {
+    id: String,
+    risk_free_return: String,
+    /// per instrument: (pnl, win rate, profit factor)
+    instruments: Vec<(String, Option<String>, Option<String>)>,
+    /// per asset: end balance (total, free)
+    assets: Vec<Option<(String, String)>>,
+}
+
+#[derive(Debug, Clone, PartialEq, Eq, Hash, Serialize)]
+pub struct MemberOutcome {
+    record: Record,
+    /// the returned summary carrying this member's id (None: no such summary / several / wrong count)
+    summary: Option<SummaryView>,
+    summary_ids: Vec<String>,
+}
+
+impl MemberOutcome {
+    /// what is counted as a distinct observed outcome: the record and the summary without identity fields
+    fn essence(&self) -> (&Record, Option<(&Vec<(String, Option<String>, Option<String>)>, &Vec<Option<(String, String)>>)>) {
+        (&self.record, self.summary.as_ref().map(|s| (&s.instruments, &s.assets)))
+    }
+}
+
+fn summary_view(s: &BacktestSummary<Daily>) -> SummaryView {
+    SummaryView {
+        id: s.id.to_string(),
+        risk_free_return: d(s.risk_free_return),
+        instruments: s
+            .trading_summary
+            .instruments
+            .values()
+            .map(|t| (d(t.pnl), t.win_rate.as_ref().map(|w| d(w.value)), t.profit_factor.as_ref().map(|p| d(p.value))))
+            .collect(),
+        assets: s
+            .trading_summary
+            .assets
+            .values()
+            .map(|a| a.balance_end.map(|b| (d(b.total), d(b.free))))
+            .collect(),
+    }
+}
+
+type Args = Arc<BacktestArgsConstant<Data, Daily, St>>;
+type Dynamic = BacktestArgsDynamic<RecStrategy, DefaultRiskManager<St>>;
+
+fn member_id(i: usize) -> String {
+    format!("m{i}")
+}
+fn member_rfr(i: usize) -> Decimal {
+    dec!(0.01) * Decimal::from(i as u64 + 1)
+}
+
+fn constants(instr: &[usize], source: &Source, latency_ms: u64) -> Args {
+    let instruments = IndexedInstruments::new(INSTRUMENTS.iter().map(|(internal, name_ex, base)| {
+        Instrument::spot(EXCHANGE, *internal, *name_ex, Underlying::new(*base, "usdt"), None)
+    }));
+    let events = Arc::new(dataset(instr));
+    let market_data = match source {
+        Source::Paced(delays) => {
+            assert_eq!(delays.len(), instr.len() + 1, "pacing vector has n+1 entries");
+            Data::Paced { events, delays: Arc::new(delays.clone()) }
+        }
+        Source::InMemory => Data::InMemory(MarketDataInMemory::new(events)),
+    };
+    let balance = |asset: &str, amount: Decimal| AssetBalance {
+        asset: AssetNameExchange::new(asset),
+        balance: Balance::new(amount, amount),
+        time_exchange: t_event(0),
+    };
+    let executions = vec![ExecutionConfig::Mock(MockExecutionConfig {
+        mocked_exchange: EXCHANGE,
+        initial_state: UnindexedAccountSnapshot {
+            exchange: EXCHANGE,
+            balances: vec![balance("usdt", dec!(100000)), balance("btc", dec!(10)), balance("eth", dec!(10))],
+            instruments: INSTRUMENTS
+                .iter()
+                .map(|(_, name_ex, _)| InstrumentAccountSnapshot {
+                    instrument: InstrumentNameExchange::new(*name_ex),
+                    orders: vec![],
+                })
+                .collect(),
+        },
+        latency_ms,
+        fees_percent: dec!(0.01),
+    })];
+    let engine_state = EngineState::builder(&instruments, RecGlobal::default(), DefaultInstrumentMarketData::default)
+        .time_engine_start(t_event(0))
+        .trading_state(TradingState::Enabled)
+        .build();
+    Arc::new(BacktestArgsConstant { instruments, executions, market_data, summary_interval: Daily, engine_state })
+}
+
+fn dynamic(i: usize, plan: Strat) -> (Dynamic, Arc<Mutex<Record>>) {
+    let out = Arc::new(Mutex::new(Record::default()));
+    (
+        BacktestArgsDynamic {
+            id: SmolStr::new(member_id(i)),
+            risk_free_return: member_rfr(i),
+            strategy: RecStrategy { plan, id: StrategyId::new("c20"), out: Arc::clone(&out) },
+            risk: DefaultRiskManager::default(),
+        },
+        out,
+    )
+}
+
+#[derive(Debug, Clone, Copy, PartialEq)]
+enum Mode {
+    /// direct `backtest()` (single member)
+    Alone,
+    /// `run_backtests()` over all members
+    Batch,
+}
+
+/// Execute the real code once. Err(kind) = the backtest returned an error or panicked.
+fn execute(instr: &[usize], source: &Source, members: &[Strat], mode: Mode) -> Result<Vec<MemberOutcome>, (String, String)> {
+    execute_on(instr, source, members, mode, 0)
+}
+
+/// Real-time latency of the mock exchange in the multi-thread smoke runs (ms).
+const MT_LATENCY_MS: u64 = 4;
+
+fn execute_on(instr: &[usize], source: &Source, members: &[Strat], mode: Mode, mt_workers: usize) -> Result<Vec<MemberOutcome>, (String, String)> {
+    let args = constants(instr, source, if mt_workers == 0 { LATENCY_MS } else { MT_LATENCY_MS });
+    let (dyns, outs): (Vec<_>, Vec<_>) = members.iter().enumerate().map(|(i, s)| dynamic(i, *s)).unzip();
+    let result = std::panic::catch_unwind(std::panic::AssertUnwindSafe(|| {
+        let rt = if mt_workers == 0 {
+            paused_rt()
+        } else {
+            tokio::runtime::Builder::new_multi_thread().worker_threads(mt_workers).enable_time().build().expect("tokio runtime")
+        };
+        let r = rt.block_on(async move {
+            match mode {
+                Mode::Alone => {
+                    let mut dyns = dyns;
+                    backtest(args, dyns.remove(0)).await.map(|s| vec![s])
+                }
+                Mode::Batch => run_backtests(args, dyns).await.map(|m| m.summaries),
+            }
+        });
+        drop(rt);
+        r
+    }));
+    let summaries = match result {
+        Err(_) => return Err(("panic".into(), "backtest panicked".into())),
+        Ok(Err(e)) => {
+            let text = format!("{e:?}");
+            let kind: String = text.chars().take_while(|c| c.is_ascii_alphanumeric()).collect();
+            return Err((kind, text));
+        }
+        Ok(Ok(s)) => s,
+    };
+    // `run_backtests` does not promise an order of the summaries: match them to the members by id.
+    let views: Vec<SummaryView> = summaries.iter().map(summary_view).collect();
+    Ok(outs
+        .iter()
+        .enumerate()
+        .map(|(i, o)| {
+            let mine: Vec<&SummaryView> = views.iter().filter(|v| v.id == member_id(i)).collect();
+            MemberOutcome {
+                record: o.lock().unwrap().clone(),
+                summary: if mine.len() == 1 && views.len() == members.len() { Some(mine[0].clone()) } else { None },
+                summary_ids: views.iter().map(|v| v.id.clone()).collect(),
+            }
+        })
+        .collect())
+}
+
+// ------------------------------------------------------------------------------------------------
+// Oracles
+// ------------------------------------------------------------------------------------------------
+
+type Viol = (String, String);
+
+fn source_kind(s: &Source) -> &'static str {
+    match s {
+        Source::Paced(_) => "paced",
+        Source::InMemory => "in-memory",
+    }
+}
+
+/// R1: the engine-local market log equals the dataset.
+fn rule_completeness(want: &[MEv], got: &[MEv], source: &Source, ctxs: &str, out: &mut Vec<Viol>) {
+    if want == got {
+        return;
+    }
+    let ids = |v: &[MEv]| v.iter().map(|e| e.id.clone()).collect::<Vec<_>>();
+    let (w, g) = (ids(want), ids(got));
+    let gset: HashSet<&String> = g.iter().collect();
+    let cause = if g.len() != gset.len() {
+        "event-delivered-more-than-once"
+    } else if g.iter().any(|x| !w.contains(x)) {
+        "foreign-event"
+    } else if g.len() < w.len() && w[..g.len()] == g[..] {
+        "tail-not-delivered-before-shutdown"
+    } else if g.len() < w.len() && w[w.len() - g.len()..] == g[..] {
+        "head-skipped"
+    } else if g.len() < w.len() {
+        "events-skipped"
+    } else if w != g {
+        "out-of-dataset-order"
+    } else {
+        "event-content-changed"
+    };
+    out.push((
+        format!("C20/R1-completeness-order/{cause}/{}-source", source_kind(source)),
+        format!("{ctxs}: engine saw {:?}, dataset is {:?}", got, want),
+    ));
+}
+
+/// R3 (own part): summary identity and consistency with the record of the same engine.
+fn rule_own_summary(i: usize, o: &MemberOutcome, ctxs: &str, out: &mut Vec<Viol>) {
+    let Some(summary) = &o.summary else {
+        out.push((
+            "C20/R3-own-summary/not-exactly-one-summary-with-own-id".into(),
+            format!("{ctxs}: member {i} (id {}) : returned summary ids {:?}", member_id(i), o.summary_ids),
+        ));
+        return;
+    };
+    if summary.risk_free_return != d(member_rfr(i)) {
+        out.push((
+            "C20/R3-own-summary/risk-free-return-of-another-backtest".into(),
+            format!("{ctxs}: member {i} summary.risk_free_return={} own={}", summary.risk_free_return, d(member_rfr(i))),
+        ));
+    }
+    if o.record.calls == 0 {
+        return; // engine never consulted the strategy: nothing exported (R1 reports it)
+    }
+    let pnl: Vec<String> = summary.instruments.iter().map(|t| t.0.clone()).collect();
+    if pnl != o.record.pnl_realised {
+        out.push((
+            "C20/R3-own-summary/pnl-differs-from-own-engine".into(),
+            format!("{ctxs}: member {i} summary pnl per instrument {:?}, its engine's realised pnl {:?}", pnl, o.record.pnl_realised),
+        ));
+    }
+    let bal_rec: Vec<Option<(String, String)>> = o.record.balances.iter().map(|b| b.1.clone()).collect();
+    if summary.assets != bal_rec {
+        out.push((
+            "C20/R3-own-summary/end-balance-differs-from-own-engine".into(),
+            format!("{ctxs}: member {i} summary end balances {:?}, its engine's balances {:?}", summary.assets, o.record.balances),
+        ));
+    }
+}
+
+/// R2: differential comparison of one member with the reference (same strategy alone). Only the FIRST
+/// differing field (in causal order: fills -> positions -> balances -> realised PnL -> summary) is reported,
+/// so one defect gives one signature per comparison kind rather than one per derived quantity.
+fn rule_isolation(prefix: &str, got: &MemberOutcome, reference: &MemberOutcome, ctxs: &str, out: &mut Vec<Viol>) {
+    let strip = |v: &[Fill]| {
+        v.iter().map(|f| (f.instrument, f.side.clone(), f.price.clone(), f.quantity.clone(), f.fee.clone())).collect::<Vec<_>>()
+    };
+    let (g, r) = (&got.record, &reference.record);
+    let found: Option<(&str, String, String)> = if g.fills != r.fills {
+        // exchange-assigned ids are part of a fill, but a difference in ids only gets its own cause
+        let field = if strip(&g.fills) == strip(&r.fills) { "fill-ids" } else { "fills" };
+        Some((field, format!("{:?}", g.fills), format!("{:?}", r.fills)))
+    } else if g.positions != r.positions {
+        Some(("final-positions", format!("{:?}", g.positions), format!("{:?}", r.positions)))
+    } else if g.balances != r.balances {
+        Some(("balances", format!("{:?}", g.balances), format!("{:?}", r.balances)))
+    } else if g.pnl_realised != r.pnl_realised {
+        Some(("realised-pnl", format!("{:?}", g.pnl_realised), format!("{:?}", r.pnl_realised)))
+    } else {
+        match (&got.summary, &reference.summary) {
+            // summary of that engine alone (identity fields are per member, checked by R3)
+            (Some(a), Some(b)) if (&a.instruments, &a.assets) != (&b.instruments, &b.assets) => {
+                Some(("summary", format!("{a:?}"), format!("{b:?}")))
+            }
+            _ => None,
+        }
+    };
+    if let Some((field, a, b)) = found {
+        out.push((format!("C20/{prefix}/{field}-differ"), format!("{ctxs}: {field}: got {a} reference(alone) {b}")));
+    }
+}
+
+/// Per-run statistics for non-vacuity.
+#[derive(Default)]
+struct Stats {
+    executions: AtomicU64,
+    backtests: AtomicU64,
+    batch_runs: AtomicU64,
+    members_with_fills: AtomicU64,
+    members_round_trip: AtomicU64,
+    members_open_position: AtomicU64,
+    members_fill_cut_by_shutdown: AtomicU64,
+    oracle_evals: AtomicU64,
+}
+
+impl Stats {
+    fn note(&self, o: &MemberOutcome) {
+        self.backtests.fetch_add(1, Ordering::Relaxed);
+        if !o.record.fills.is_empty() {
+            self.members_with_fills.fetch_add(1, Ordering::Relaxed);
+        }
+        if o.record.pnl_realised.iter().any(|p| p != "0") {
+            self.members_round_trip.fetch_add(1, Ordering::Relaxed);
+        }
+        if o.record.positions.iter().any(|p| p.is_some()) {
+            self.members_open_position.fetch_add(1, Ordering::Relaxed);
+        }
+        if o.record.orders_sent.len() > o.record.fills.len() {
+            self.members_fill_cut_by_shutdown.fetch_add(1, Ordering::Relaxed);
+        }
+    }
+}
+
+/// Reference run of one strategy alone (twice: reproducibility is part of R2). Returns the first outcome.
+fn reference(instr: &[usize], source: &Source, s: Strat, stats: &Stats, distinct: &Distinct, out: &mut Vec<Viol>) -> Option<MemberOutcome> {
+    let ctxs = format!("alone instr={instr:?} source={source:?} strategy={s:?}");
+    let mut runs = Vec::new();
+    for _ in 0..2 {
+        stats.executions.fetch_add(1, Ordering::Relaxed);
+        match execute(instr, source, &[s], Mode::Alone) {
+            Ok(mut v) => runs.push(v.remove(0)),
+            Err((kind, text)) => {
+                out.push((format!("C20/R1-completeness-order/backtest-failed/{kind}"), format!("{ctxs}: {text}")));
+                return None;
+            }
+        }
+    }
+    let first = runs.remove(0);
+    stats.note(&first);
+    distinct.add(&first.essence());
+    stats.oracle_evals.fetch_add(3, Ordering::Relaxed);
+    rule_completeness(&expected_log(instr), &first.record.market, source, &ctxs, out);
+    rule_own_summary(0, &first, &ctxs, out);
+    rule_isolation("R2-isolation-sequential-runs", &runs[0], &first, &ctxs, out);
+    Some(first)
+}
+
+/// Evaluate one batch against the references.
+fn check_batch(instr: &[usize], source: &Source, members: &[Strat], refs: &BTreeMap<Strat, MemberOutcome>, stats: &Stats, distinct: &Distinct, out: &mut Vec<Viol>) {
+    let ctxs = format!("batch instr={instr:?} source={source:?} members={members:?}");
+    stats.executions.fetch_add(1, Ordering::Relaxed);
+    stats.batch_runs.fetch_add(1, Ordering::Relaxed);
+    let outcomes = match execute(instr, source, members, Mode::Batch) {
+        Ok(v) => v,
+        Err((kind, text)) => {
+            out.push((format!("C20/R1-completeness-order/backtest-failed/{kind}"), format!("{ctxs}: {text}")));
+            return;
+        }
+    };
+    let want = expected_log(instr);
+    for (i, o) in outcomes.iter().enumerate() {
+        stats.note(o);
+        distinct.add(&o.essence());
+        stats.oracle_evals.fetch_add(3, Ordering::Relaxed);
+        let c = format!("{ctxs} member={i}");
+        rule_completeness(&want, &o.record.market, source, &c, out);
+        rule_own_summary(i, o, &c, out);
+        if let Some(r) = refs.get(&members[i]) {
+            rule_isolation("R2-isolation-concurrent", o, r, &c, out);
+        }
+    }
+}
+
+// ------------------------------------------------------------------------------------------------
+// Enumeration
+// ------------------------------------------------------------------------------------------------
+
+fn strategies(n: usize) -> Vec<Strat> {
+    let mut v = vec![Strat::Idle];
+    for buy in 1..=n {
+        for sell in buy + 1..=n + 1 {
+            v.push(Strat::Trade { buy, sell });
+        }
+    }
+    v
+}
+
+fn product<T: Clone>(menu: &[T], len: usize) -> Vec<Vec<T>> {
+    let mut acc: Vec<Vec<T>> = vec![vec![]];
+    for _ in 0..len {
+        acc = acc
+            .into_iter()
+            .flat_map(|p| {
+                menu.iter().map(move |m| {
+                    let mut q = p.clone();
+                    q.push(m.clone());
+                    q
+                })
+            })
+            .collect();
+    }
+    acc
+}
+
+fn case_of(instr: &[usize], source: &Source, members: &[Strat]) -> Case {
+    Case { instr: instr.to_vec(), source: source.clone(), members: members.to_vec(), mt_workers: 0, needs_parallel_context: false }
+}
+
+fn case_json(instr: &[usize], source: &Source, members: &[Strat]) -> Value {
+    serde_json::to_value(Case { instr: instr.to_vec(), source: source.clone(), members: members.to_vec(), mt_workers: 0, needs_parallel_context: false }).unwrap()
+}
+
+
+
+/// Violation candidates found by the parallel sweep: per signature the occurrence count and the few
+/// smallest cases for each member count. After the sweep each signature's candidates are re-run SERIALLY
+/// (nothing else running in the process) and the smallest case that reproduces the signature on its own is
+/// retained as the replay artefact; see `Case::needs_parallel_context` for the other situation.
+#[derive(Default)]
+struct Candidates {
+    inner: Mutex<BTreeMap<String, (u64, Vec<((usize, String), String, Case)>)>>,
+}
+
+impl Candidates {
+    const KEEP_PER_MEMBER_COUNT: usize = 3;
+    fn report(&self, sig: String, detail: String, case: Case) {
+        let text = serde_json::to_string(&case).unwrap();
+        let rank = (text.len(), text);
+        let mut g = self.inner.lock().unwrap();
+        let e = g.entry(sig).or_insert_with(|| (0, Vec::new()));
+        e.0 += 1;
+        let same_n = e.1.iter().filter(|c| c.2.members.len() == case.members.len()).count();
+        if same_n < Self::KEEP_PER_MEMBER_COUNT {
+            e.1.push((rank, detail, case));
+        } else if let Some(worst) = e
+            .1
+            .iter_mut()
+            .filter(|c| c.2.members.len() == case.members.len())
+            .max_by(|a, b| a.0.cmp(&b.0))
+        {
+            if rank < worst.0 {
+                *worst = (rank, detail, case);
+            }
+        }
+    }
+}
+
+/// The complete check of one case, serially: references (alone, twice) for every distinct member strategy,
+/// then the batch. This is what `replay` executes.
+fn check_case_serial(case: &Case, verbose: bool) -> Vec<Viol> {
+    let stats = Stats::default();
+    let distinct = Distinct::default();
+    let mut out = Vec::new();
+    let mut refs = BTreeMap::new();
+    for s in case.members.iter().collect::<std::collections::BTreeSet<_>>() {
+        if let Some(r) = reference(&case.instr, &case.source, *s, &stats, &distinct, &mut out) {
+            if verbose {
+                println!("reference alone {s:?}: {}", serde_json::to_string(&r).unwrap());
+            }
+            refs.insert(*s, r);
+        }
+    }
+    check_batch(&case.instr, &case.source, &case.members, &refs, &stats, &distinct, &mut out);
+    out
+}
+
+/// The same check under concurrent load: 4 threads repeat the case while 4 threads keep running a trading
+/// "noisy neighbour" batch (each execution on its own runtime) — the situation of the parallel sweep.
+fn check_case_under_load(case: &Case) -> Vec<Viol> {
+    let out = Mutex::new(Vec::new());
+    let done = std::sync::atomic::AtomicBool::new(false);
+    let neighbour_members = [Strat::Trade { buy: 1, sell: 2 }, Strat::Trade { buy: 2, sell: 3 }];
+    std::thread::scope(|sc| {
+        for _ in 0..4 {
+            sc.spawn(|| {
+                while !done.load(Ordering::SeqCst) {
+                    let _ = execute(&[0, 1], &Source::Paced(vec![1, 250, 250]), &neighbour_members, Mode::Batch);
+                }
+            });
+        }
+        let checkers: Vec<_> = (0..4)
+            .map(|_| {
+                sc.spawn(|| {
+                    for _ in 0..40 {
+                        let v = check_case_serial(case, false);
+                        out.lock().unwrap().extend(v);
+                    }
+                })
+            })
+            .collect();
+        for c in checkers {
+            let _ = c.join();
+        }
+        done.store(true, Ordering::SeqCst);
+    });
+    out.into_inner().unwrap()
+}
+
+/// Serial search of the small cases (n <= 2, quick menu, N <= 2) for one that shows `sig` on its own. Used only
+/// when none of the sweep's candidates for `sig` reproduces serially.
+fn serial_search(sig: &str) -> Option<(String, Case)> {
+    for n in 1..=2usize {
+        let strats = strategies(n);
+        for instr in product(&[0usize, 1usize], n) {
+            let mut sources: Vec<Source> = product(&MENU_QUICK, n + 1).into_iter().map(Source::Paced).collect();
+            sources.push(Source::InMemory);
+            for source in &sources {
+                for members_n in 1..=2usize {
+                    for members in product(&strats, members_n) {
+                        let case = case_of(&instr, source, &members);
+                        if let Some(v) = check_case_serial(&case, false).into_iter().find(|v| v.0 == sig) {
+                            return Some((v.1, case));
+                        }
+                    }
+                }
+            }
+        }
+    }
+    None
+}
+
+/// Auxiliary, NON-exhaustive smoke run on a real-time multi-thread runtime (the OS-thread interleavings of
+/// tokio's scheduler cannot be enumerated from outside). Only the rules that hold for every schedule are
+/// evaluated (R1 completeness/order, R3 summary is its own engine's); R2 is not (real-time races between
+/// pacing and latency legitimately change which fills arrive before Shutdown).
+fn check_mt_smoke(instr: &[usize], source: &Source, members: &[Strat], workers: usize, out: &mut Vec<Viol>) -> u64 {
+    let ctxs = format!("mt-smoke workers={workers} instr={instr:?} source={source:?} members={members:?}");
+    let outcomes = match execute_on(instr, source, members, Mode::Batch, workers) {
+        Ok(v) => v,
+        Err((kind, text)) => {
+            out.push((format!("C20/mt-smoke/R1-completeness-order/backtest-failed/{kind}"), format!("{ctxs}: {text}")));
+            return 0;
+        }
+    };
+    let want = expected_log(instr);
+    let mut local = Vec::new();
+    for (i, o) in outcomes.iter().enumerate() {
+        let c = format!("{ctxs} member={i}");
+        rule_completeness(&want, &o.record.market, source, &c, &mut local);
+        rule_own_summary(i, o, &c, &mut local);
+    }
+    out.extend(local.into_iter().map(|(sig, det)| (sig.replacen("C20/", "C20/mt-smoke/", 1), det)));
+    outcomes.iter().filter(|o| !o.record.fills.is_empty()).count() as u64
+}
+
+fn mt_smoke(ctx: &Ctx) -> Value {
+    let workers = 4usize;
+    let n = 3usize;
+    let strats = strategies(n);
+    let patterns: Vec<Vec<usize>> = vec![vec![0, 1, 0], vec![1, 1, 0]];
+    // real-time pacings (ms); the tail of the last one lets responses (latency 4 ms) land before Shutdown
+    let sources = vec![Source::InMemory, Source::Paced(vec![0, 0, 0, 0]), Source::Paced(vec![1, 0, 1, 0]), Source::Paced(vec![6, 6, 6, 12])];
+    // member triples: every strategy appears, neighbours differ; `stride` thins the list in the quick tier
+    let stride = ctx.tier.pick(3usize, 1usize);
+    let triples: Vec<Vec<Strat>> = (0..strats.len())
+        .step_by(stride)
+        .map(|i| vec![strats[i], strats[(i + 1) % strats.len()], strats[(i + 3) % strats.len()]])
+        .collect();
+    let mut runs = 0u64;
+    let mut members_with_fills = 0u64;
+    let mut sigs = Vec::new();
+    for instr in &patterns {
+        for source in &sources {
+            for members in &triples {
+                let mut out = Vec::new();
+                members_with_fills += check_mt_smoke(instr, source, members, workers, &mut out);
+                runs += 1;
+                for (sig, detail) in out {
+                    sigs.push(sig.clone());
+                    let mut case = Case { instr: instr.clone(), source: source.clone(), members: members.clone(), mt_workers: workers, needs_parallel_context: false };
+                    ctx.violate(sig, detail, serde_json::to_value(&case).unwrap());
+                    case.mt_workers = workers;
+                }
+            }
+        }
+    }
+    sigs.sort();
+    sigs.dedup();
+    json!({
+        "non_exhaustive": true,
+        "decides_property": false,
+        "runtime": format!("multi-thread, {workers} workers, real time"),
+        "batch_runs": runs,
+        "members_with_fills": members_with_fills,
+        "rules": "R1 completeness/order and R3 own-summary only (timing independent)",
+        "violation_signatures": sigs,
+    })
+}
+
+pub fn run(ctx: &Ctx) -> Outcome {
+    let n_max = ctx.tier.pick(3usize, 4usize);
+    // thorough: the 4-value menu (with burst delay 0) for n <= 3, the 3-value menu at n = 4
+    let menu_for = |n: usize| -> Vec<u64> {
+        if ctx.tier == crate::core::Tier::Thorough && n <= 3 { MENU_THOROUGH.to_vec() } else { MENU_QUICK.to_vec() }
+    };
+    // sanity of the no-tie claim: no run of consecutive delays sums to the latency
+    for n in 1..=n_max {
+        for len in 1..=n + 1 {
+            for p in product(&menu_for(n), len) {
+                assert_ne!(p.iter().sum::<u64>(), LATENCY_MS, "pacing menu creates a deadline tie: {p:?}");
+            }
+        }
+    }
+
+    let stats = Stats::default();
+    let distinct = Distinct::default();
+    let samples = Samples::new(6);
+    let candidates = Candidates::default();
+    let mut units: Vec<(Vec<usize>, Source)> = Vec::new();
+    let mut per_n = Vec::new();
+    for n in 1..=n_max {
+        let patterns = product(&[0usize, 1usize], n);
+        // The first delay is never 0: the initial account snapshot then reaches the engine before the first
+        // market event, as in any real run (otherwise `HistoricalClock`'s wall-clock deltas decide whether
+        // the first fill's balance is "newer" than the snapshot's, which no timing-free oracle can judge).
+        let mut pacings = product(&menu_for(n), n + 1)
+            .into_iter()
+            .filter(|p| p[0] > 0)
+            .map(Source::Paced)
+            .collect::<Vec<_>>();
+        pacings.push(Source::InMemory);
+        per_n.push(json!({"n": n, "instrument_patterns": patterns.len(), "sources": pacings.len(), "strategies": strategies(n).len()}));
+        for p in &patterns {
+            for s in &pacings {
+                units.push((p.clone(), s.clone()));
+            }
+        }
+    }
+
+    units.par_iter().for_each(|(instr, source)| {
+        let n = instr.len();
+        let strats = strategies(n);
+        let mut viols: Vec<(Viol, Case)> = Vec::new();
+        let mut refs = BTreeMap::new();
+        for s in &strats {
+            let mut out = Vec::new();
+            if let Some(r) = reference(instr, source, *s, &stats, &distinct, &mut out) {
+                refs.insert(*s, r);
+            }
+            viols.extend(out.into_iter().map(|v| (v, case_of(instr, source, &[*s]))));
+        }
+        // N=3 over every ordered assignment is the dominant cost: at the largest dataset size N=3 is run only
+        // for the datasets whose first event is on instrument 0 (the mirror images are covered for N<=2).
+        let max_members = if n == n_max && n >= 3 && instr[0] == 1 { 2 } else { 3 };
+        for members_n in 1..=max_members {
+            let mut assignments = product(&strats, members_n);
+            if members_n == 3 && n >= 4 {
+                // thorough, largest size: non-decreasing triples and their reversals instead of all 11^3 orders
+                // (every ordered triple is run for n <= 3, every ordered pair for all n)
+                let sorted: Vec<Vec<Strat>> = assignments.into_iter().filter(|m| m[0] <= m[1] && m[1] <= m[2]).collect();
+                assignments = sorted
+                    .iter()
+                    .cloned()
+                    .chain(sorted.iter().filter(|m| m[0] != m[2]).map(|m| m.iter().rev().cloned().collect()))
+                    .collect();
+            }
+            for members in assignments {
+                let mut out = Vec::new();
+                check_batch(instr, source, &members, &refs, &stats, &distinct, &mut out);
+                viols.extend(out.into_iter().map(|v| (v, case_of(instr, source, &members))));
+            }
+        }
+        for ((sig, detail), case) in viols {
+            candidates.report(sig, detail, case);
+        }
+    });
+
+    // Serial confirmation of every signature (the sweep is over: nothing else runs in the process now).
+    for (sig, (count, mut cands)) in candidates.inner.into_inner().unwrap() {
+        cands.sort_by(|a, b| a.0.cmp(&b.0));
+        let confirmed = cands.iter().find(|c| check_case_serial(&c.2, false).iter().any(|v| v.0 == sig));
+        let (detail, case) = match confirmed.map(|c| (c.1.clone(), c.2.clone())).or_else(|| serial_search(&sig)) {
+            Some(found) => found,
+            None => {
+                let c = &cands[0];
+                let mut case = c.2.clone();
+                case.needs_parallel_context = true;
+                (format!("{} [not reproduced by a serial re-run of this or any small case: observed only while other backtests were running on other threads of the process — interference through process-global state]", c.1), case)
+            }
+        };
+        ctx.violate(sig.clone(), detail, serde_json::to_value(&case).unwrap());
+        for _ in 1..count {
+            ctx.violations.bump(&sig);
+        }
+    }
+
+    // deterministic samples: a few cases spread over the unit list, re-executed serially with their outcome
+    for k in 0..6usize {
+        let (instr, source) = &units[(units.len() - 1) * k / 5];
+        let strats = strategies(instr.len());
+        let members: Vec<Strat> = (0..(k % 3) + 1).map(|j| strats[(k + 2 * j + 1) % strats.len()]).collect();
+        let observed = execute(instr, source, &members, Mode::Batch).ok().map(|v| {
+            v.iter()
+                .map(|o| json!({"market_events_seen": o.record.market.len(), "fills": o.record.fills.len(), "orders_sent": o.record.orders_sent,
+                                "positions": o.record.positions, "realised_pnl": o.record.pnl_realised, "summary": o.summary}))
+                .collect::<Vec<_>>()
+        });
+        samples.offer(|| json!({"case": case_json(instr, source, &members), "observed": observed}));
+    }
+
+    let smoke = mt_smoke(ctx);
+
+    let g = |a: &AtomicU64| a.load(Ordering::Relaxed);
+    if g(&stats.members_with_fills) == 0 || g(&stats.members_round_trip) == 0 || g(&stats.members_fill_cut_by_shutdown) == 0 {
+        // vacuity guard: the harness must reach fills, closed round trips and cut-off responses
+        if ctx.violations.len() == 0 {
+            eprintln!("MACHINERY: C20 exploration is vacuous (no fills / round trips / cut-off responses reached)");
+            std::process::exit(2);
+        }
+    }
+    Outcome {
+        level: "exploration",
+        coverage: json!({
+            "evaluations": g(&stats.executions),
+            "batch_runs": g(&stats.batch_runs),
+            "backtests_observed": g(&stats.backtests),
+            "oracle_evaluations": g(&stats.oracle_evals),
+            "distinct_nontrivial": distinct.len(),
+            "members_with_fills": g(&stats.members_with_fills),
+            "members_with_closed_round_trip": g(&stats.members_round_trip),
+            "members_with_open_final_position": g(&stats.members_open_position),
+            "members_with_response_cut_off_by_shutdown": g(&stats.members_fill_cut_by_shutdown),
+            "units_dataset_x_source": units.len(),
+            "per_n": per_n,
+            "n_max": n_max,
+            "pacing_menu_ms_by_n": (1..=n_max).map(|n| json!({"n": n, "menu": menu_for(n)})).collect::<Vec<_>>(),
+            "latency_ms": LATENCY_MS,
+            "max_concurrent_members": 3,
+            "bounds": {
+                "dataset_sizes": format!("1..={n_max}"),
+                "instrument_patterns": "all 2^n",
+                "pacings": "menu^(n+1) with first delay > 0, plus the real MarketDataInMemory",
+                "strategies": "idle + buy@b/sell@s for all 1<=b<s<=n+1",
+                "members": "N=1,2: every ordered assignment for every dataset; N=3: every ordered assignment (n<=3), non-decreasing triples + reversals (n=4); at n=n_max N=3 only for datasets starting on instrument 0",
+            },
+            "exhaustive": true,
+            "rule": "every dataset (instrument pattern) x every pacing vector (menu^(n+1)) + real MarketDataInMemory x every ordered assignment of strategies to N in {1,2,3} members, each executed by the real backtest()/run_backtests() on a paused current-thread runtime; R1 completeness/order, R2 member-in-batch == same member alone (and alone twice), R3 summary is its own engine's",
+            "samples": samples.take(),
+            "auxiliary_multithread_smoke": smoke,
+        }),
+        assumptions: vec![
+            "strategies decide from the number of market events seen only (timing-independent class of the statement)".into(),
+            "pacing menus avoid coinciding virtual deadlines (asserted at start); multi-thread scheduler interleavings are not enumerated: on a current-thread runtime with paused time the only freedom is the relative order of market events and execution responses in the engine feed, which the pacing vectors enumerate".into(),
+            "one mocked exchange, two spot instruments, market orders of quantity 1, balances never exhausted, no disconnects and no fatal engine errors in the explored runs".into(),
+            "N=3 at the largest dataset size (n=3 quick, n=4 thorough) only for datasets starting on instrument 0; all smaller sizes: every dataset x N<=3; at n=4 the N=3 assignments are the non-decreasing strategy triples and their reversals (all ordered triples for n<=3, all ordered pairs for every n)".into(),
+            "the first market event is delivered a positive virtual delay after system start, i.e. after the initial account snapshot".into(),
+            "timestamps are excluded from compared outcomes (HistoricalClock adds wall-clock deltas); dataset timestamps are one hour apart so wall-clock jitter cannot reorder exchange timestamps".into(),
+        ],
+    }
+}
+
+pub fn replay(ctx: &Ctx, case: &Value) {
+    let case_v = case.clone();
+    let case: Case = match serde_json::from_value(case.clone()) {
+        Ok(c) => c,
+        Err(e) => {
+            eprintln!("MACHINERY: C20 replay: bad case: {e}");
+            std::process::exit(2)
+        }
+    };
+    let mut out = Vec::new();
+    if case.mt_workers > 0 {
+        // non-deterministic schedule: repeat a few times
+        for _ in 0..20 {
+            check_mt_smoke(&case.instr, &case.source, &case.members, case.mt_workers, &mut out);
+        }
+    } else {
+        out = check_case_serial(&case, true);
+        if out.is_empty() && case.needs_parallel_context {
+            println!("serial re-run clean; re-running under concurrent load (4 checker threads x 40 repetitions, 4 noisy-neighbour threads)");
+            out = check_case_under_load(&case);
+        }
+    }
+    for (sig, detail) in out {
+        ctx.violate(sig, detail, case_v.clone());
+    }
 }
